@@ -11,3 +11,4 @@ echo "== clean tree"; grep -L "rc=0" $OUT/*.clean
 echo "== mutants"; cat $OUT/*.mut | grep -c "^caught"; grep -h "MISSED\|STALE" $OUT/*.mut | cut -c1-300
 echo "== benign"; cat $OUT/*.ben | grep -c "^quiet"; grep -h "FALSE-ALARM\|STALE" $OUT/*.ben | cut -c1-300
 echo "== seeded"; cat $OUT/*.seed | grep -c "^caught"; grep -h "MISSED\|skipped " $OUT/*.seed | cut -c1-300
+echo "== rule sets"; python3 tools/rulesets.py | tail -3
